@@ -609,6 +609,24 @@ def main():
             imported_hashes[it["path"]] = it["sha256"]
             imported_unit[it["path"]] = (it["imported_from"], it["out_name"])
 
+    # 1d. loop / closure structure of the functions this unit verifies itself. The proof annotations of the template
+    # (loop invariants, typed closure headers with their specifications) are placed by ordinal; a function that now has
+    # a different number of loops or closures than on the baseline carries constructs without annotations, and a proof
+    # failure there says nothing about the property (a refactoring of `match` into `.and_then(|x| ..)` fails with
+    # "precondition not satisfied" inside the un-annotated closure). That is a lost anchor, not a violation: the bounded
+    # enumerator decides on the real code.
+    structure = {it["path"]: it.get("structure") for it in ctx.items if it["kind"] == "fn" and not it.get("imported_from")}
+    base_structure = {}
+    try:
+        base_structure = json.load(open(os.path.join(VERIF, "units", unit, "baseline_obligations.json"))).get("structure", {})
+    except (OSError, ValueError):
+        pass
+    if not args.update_baseline:
+        moved = ["%s: loops/closures %s -> %s" % (p_, base_structure[p_], s_) for p_, s_ in sorted(structure.items())
+                 if p_ in base_structure and base_structure[p_] is not None and s_ is not None and base_structure[p_] != s_]
+        if moved:
+            undecided("lost-anchor", "structure changed (the template's loop invariants / closure specifications are placed by ordinal): " + "; ".join(moved))
+
     # 2. parse
     try:
         fns = parse_file(text, ctx.items)
@@ -694,7 +712,7 @@ def main():
     kfs = {k["obligation"]: k for k in kf_all.get("findings", []) if k.get("property") == prop}
     if args.update_baseline:
         good = sorted(o for o in obs if o not in failed)
-        json.dump({"unit": unit, "obligations": good, "bounded_hashes": bounded_hashes, "imported_hashes": imported_hashes}, open(base_path, "w"), indent=1)
+        json.dump({"unit": unit, "obligations": good, "bounded_hashes": bounded_hashes, "imported_hashes": imported_hashes, "structure": structure}, open(base_path, "w"), indent=1)
         print("baseline written: %d obligations (%d failing, not listed)" % (len(good), len(failed)))
     base_json = json.load(open(base_path)) if os.path.exists(base_path) else {"obligations": []}
     baseline = set(base_json["obligations"])
